@@ -14,8 +14,8 @@ THEOREMS = ["C01_fold_sound", "C01_fold_sound_root", "C01_fold_accepts", "C01_fo
             "C01_optimize_preserves", "C01_fold_pass_decreases",
             # termination: every continuing pass decreases (totalEvents, playedEvents); the stack analysis stays
             # within its recursion budget; the whole run does not end in OErr.fuel
-            "C01_extract_pass_decreases", "C01_pass_decreases", "C01_analyzeStack_budget", "C01_analyzeTrack_budget",
-            "C01_optimize_terminates_partial"]
+            "C01_extract_pass_decreases", "C01_pass_decreases", "pass_i16", "optimize_no_fuel", "C01_analyzeStack_budget",
+            "C01_analyzeTrack_budget", "C01_optimize_terminates_partial"]
 LEVEL = "proof"
 STREAM = "opt.final"
 CHUNK = 150
